@@ -111,7 +111,7 @@ enum Way {
 /// A history over `nb` bars; structural validity (insert references are members, no op on a
 /// dropped handle) is tracked here.  Every op of sysrun::Op occurs.
 fn gen_case(r: &mut Rng, way: Way) -> Case {
-    let w = *r.pick(&[3u16, 8, 20]);
+    let w = *r.pick(&[1u16, 3, 8, 20, 80]);
     let wu = w as usize;
     let nb = r.range(1, 3) as usize;
     let mp = match way {
@@ -230,7 +230,7 @@ fn gen_case(r: &mut Rng, way: Way) -> Case {
         };
         ops.push((t, op));
     }
-    Case { w, h: 40, fail_at: vec![], fail_from: None, mp, bars, ops }
+    Case { w, h: *r.pick(&[2u16, 5, 40]), fail_at: vec![], fail_from: None, mp, bars, ops }
 }
 
 /// the visible twin: every hidden target replaced by an unlimited terminal target
@@ -447,7 +447,11 @@ fn main() {
         s.count(&format!("way:{}", way_name(way)));
         for (_, o) in &case.ops {
             s.count(&format!("op:{}", o.name()));
+            s.count(&format!("way-op:{}:{}", way_name(way), o.name()));
         }
+        s.count(&format!("W:{}", case.w));
+        s.count(&format!("H:{}", case.h));
+        s.count(&format!("bars:{}", case.bars.len()));
         // ---- implementation run + silence oracle
         let obs = run_case(&case);
         let mut tr = HiddenTracker::new(&case);
